@@ -6,7 +6,7 @@
    - injectivity does NOT hold (C09: strop_injective_refuted): the exact statement is "two type files coincide iff their
      namespace components and file stems fold pairwise", fold l a b := real_strop l a = real_strop l b; on clean names fold is
      equality; a reserved word and its stropped spelling fold (witness below, the documented one-way stropping). *)
-From Verif Require Import StropInst StropThmInst.
+From Verif Require Import Strop StropInst StropThmRe StropThmEnc StropThm StropThmId StropThmInst.
 From Verif Require Import NamespaceBase NamespacePathThm NamespaceThm NamespaceFsThm.
 Open Scope N_scope.
 
@@ -174,3 +174,78 @@ Proof.
       destruct Hx as [<-|[<-|[]]]; vm_compute; reflexivity.
   - vm_compute. split; reflexivity.
 Qed.
+
+(* ---- Python: identifier types "any" and "path" strop every DSDL name alike --------------------------------------------------
+   lang/py filter_imports / filter_full_reference_name strop namespace components with id type "any", directories are made with
+   "path".  For the regenerated py configuration (no reserved patterns; "any" encoding rules = the "all" rules) the two agree on
+   every DSDL name (valid_ident): the py package/module reference of a type is the directory chain of its file. *)
+Section PYAGREE.
+  Notation D f := (do_for_type_and_all f).
+  Notation ENC := (encode py_uni py_isspace cfg_py).
+  Notation KW := (strop_by_keyword cfg_py).
+  Notation PAT := (strop_by_pattern py_uni cfg_py).
+
+  Lemma py_pat ty tok dry : ty = ty_any \/ ty = ty_path -> D PAT tok ty dry = TOk tok.
+  Proof. intros [-> | ->]; vm_compute; reflexivity. Qed.
+
+  Lemma py_kw tok dry : D KW tok ty_any dry = D KW tok ty_path dry.
+  Proof. unfold do_for_type_and_all, strop_by_keyword. reflexivity. Qed.
+
+  Lemma enc_dry_cases rs s : encode_rules py_uni py_isspace cfg_py rs true s = TOk s
+                             \/ encode_rules py_uni py_isspace cfg_py rs true s = TRuntimeError.
+  Proof.
+    induction rs as [|r rs IH]; cbn [encode_rules]; [left; reflexivity|].
+    destruct (re_matches py_uni r s); [right; reflexivity | exact IH].
+  Qed.
+
+  Lemma py_enc_dry s : D ENC s ty_any true = D ENC s ty_path true.
+  Proof.
+    unfold do_for_type_and_all, encode.
+    change (lookup (sc_rules cfg_py) ty_all) with (Some [py_rule_all_0; py_rule_all_1]).
+    change (lookup (sc_rules cfg_py) ty_any) with (Some [py_rule_all_0; py_rule_all_1]).
+    change (lookup (sc_rules cfg_py) ty_path) with (@None (list re)).
+    change (str_eqb ty_any ty_all) with false. change (str_eqb ty_path ty_all) with false.
+    destruct (enc_dry_cases [py_rule_all_0; py_rule_all_1] s) as [E|E]; rewrite E; [rewrite E|]; reflexivity.
+  Qed.
+
+  (* no encoding rule matches inside a DSDL name: the non-dry encoding step is the identity for every identifier type *)
+  Lemma py_enc_id t k dry : valid_ident t = true -> ENC t k dry = TOk t.
+  Proof.
+    intros Hv. destruct (valid_split t Hv) as [Hi Hh].
+    assert (Hne : t <> []) by (destruct t; discriminate).
+    unfold encode. destruct (lookup (sc_rules cfg_py) k) as [rs|] eqn:L; [|reflexivity].
+    assert (Hnm : forall r, In r rs -> nomatch_all py_uni r true t).
+    { intros r Hin. apply (inert_nomatch py_uni false r); [|assumption|discriminate|auto].
+      exact (rules_inert py_uni cfg_py false chk_id_py k rs r L Hin). }
+    destruct dry.
+    - apply (encode_rules_dry_ok py_uni py_isspace cfg_py); assumption.
+    - rewrite (encode_rules_nd py_uni py_isspace cfg_py). f_equal. apply sub_all_noop. exact Hnm.
+  Qed.
+
+  Lemma py_enc_nd t ty : valid_ident t = true -> str_eqb ty ty_all = false -> D ENC t ty false = TOk t.
+  Proof. intros Hv Hty. unfold do_for_type_and_all. rewrite (py_enc_id t ty_all false Hv), Hty, (py_enc_id t ty false Hv). reflexivity. Qed.
+
+  Theorem py_any_path_agree t : valid_ident t = true -> strop_py ty_any t = strop_py ty_path t.
+  Proof.
+    intros Hv. unfold strop_py, strop.
+    change (lower ty_any) with ty_any. change (lower ty_path) with ty_path.
+    change (str_eqb ty_any ty_all) with false. change (str_eqb ty_path ty_all) with false. cbv iota.
+    rewrite (py_enc_nd t ty_any Hv eq_refl), (py_enc_nd t ty_path Hv eq_refl).
+    rewrite (py_kw t false). destruct (D KW t ty_path false) as [k| |]; try reflexivity.
+    rewrite !py_pat by auto. cbn [checked].
+    rewrite (py_kw k true). destruct (checked (D KW k ty_path true) (sc_strop_handler cfg_py) k) as [s2| |]; try reflexivity.
+    rewrite (py_enc_dry s2). destruct (checked (D ENC s2 ty_path true) (sc_enc_handler cfg_py) s2) as [s3| |]; try reflexivity.
+    destruct (sc_reverify cfg_py); [|reflexivity].
+    unfold reverified. rewrite !py_pat by auto. rewrite (py_kw s3 true), (py_enc_dry s3). reflexivity.
+  Qed.
+
+  (* hence: the Python package chain of a referenced type (id type "any") is the directory chain of its file (id type "path") *)
+  Definition real_strop_any (l : lang) (x : str) : str := match strop_lang l ty_any x with Ok t => t | _ => x end.
+
+  Theorem py_reference_is_directory_chain (ns : key) :
+    (forall x, In x ns -> valid_ident x = true) -> map (real_strop_any LPy) ns = map (real_strop LPy) ns.
+  Proof.
+    intros H. apply map_ext_in. intros x Hx. unfold real_strop_any, real_strop.
+    change (strop_lang LPy) with strop_py. rewrite (py_any_path_agree x (H x Hx)). reflexivity.
+  Qed.
+End PYAGREE.
